@@ -132,7 +132,7 @@ class Report:
             else:
                 new_viol.append(o)
 
-        outdir = os.path.join(VERIF, "out")
+        outdir = os.environ.get("VERIF_EVIDENCE_DIR") or os.path.join(VERIF, "out")
         os.makedirs(outdir, exist_ok=True)
         for o, k in known_hit:
             print("KNOWN-FINDING: property=%s %s" % (self.prop, k.get("what", o.key())))
@@ -238,7 +238,7 @@ class Report:
             "wall_s": round(time.time() - self.t0, 3),
             "violations": n_new,
         }
-        evdir = os.path.join(VERIF, "evidence")
+        evdir = os.environ.get("VERIF_EVIDENCE_DIR") or os.path.join(VERIF, "evidence")
         os.makedirs(evdir, exist_ok=True)
         with open(os.path.join(evdir, "%s.json" % self.prop), "w") as f:
             json.dump(ev, f, indent=1, default=str)
